@@ -783,6 +783,7 @@ class Interp:
     def run(self):
         b = self.body
         self._closure_locs = {}
+        self.dead_edges = set()
         rpo, succs, preds, dom, back = self.cfg()
         self.rpo, self.succs, self.preds, self.dom, self.back_edges = rpo, succs, preds, dom, back
         out_states = {}
@@ -793,8 +794,11 @@ class Interp:
                 if bb == rpo[0]:
                     st = init.copy()
                 else:
-                    ent = [out_states[p] for p in preds[bb] if (p, bb) not in back and p in out_states]
-                    bks = [out_states[p] for p in preds[bb] if (p, bb) in back and p in out_states]
+                    # an edge out of a switch whose discriminant is a known constant (a literal enum variant handed to an inlined
+                    # helper, `if true`, a `cfg!`) that the constant does not select is infeasible: nothing flows along it
+                    dead = self.dead_edges
+                    ent = [out_states[p] for p in preds[bb] if (p, bb) not in back and p in out_states and (p, bb) not in dead]
+                    bks = [out_states[p] for p in preds[bb] if (p, bb) in back and p in out_states and (p, bb) not in dead]
                     if not ent:
                         continue
                     st = self.join_states(ent)
@@ -845,9 +849,43 @@ class Interp:
                     v -= (1 << bits)
                 targets.append((v, tb))
             self.switches[bb] = SwitchRec(bb, d, tuple(targets), t['otherwise'], signed, bits, t['span']['line'])
+            cv = self._const_discr(d)
+            outs = set(tb for _, tb in targets) | ({t['otherwise']} if t['otherwise'] is not None else set())
+            for x in outs:
+                self.dead_edges.discard((bb, x))
+            if cv is not None:
+                hit = [tb for v, tb in targets if v == cv]
+                live = set(hit) if hit else ({t['otherwise']} if t['otherwise'] is not None else set())
+                if live:
+                    for x in outs - live:
+                        self.dead_edges.add((bb, x))
         elif tk == 'return':
             self.returns[bb] = self.value(st, st.env.get(0, UNDEF))
             self.ret_store[bb] = {root: v for root, v in st.store.items() if root[0] == 'P'}
+
+    _STD_VARIANTS = {'option::Option': {'None': 0, 'Some': 1}, 'result::Result': {'Ok': 0, 'Err': 1},
+                     'cmp::Ordering': {'Less': -1, 'Equal': 0, 'Greater': 1}}
+
+    def _const_discr(self, d):
+        """Integer value of a switch discriminant that is a literal constant / a literal enum variant, else None."""
+        while d[0] in ('at',):
+            d = d[2]
+        if d[0] == 'const' and isinstance(d[1], (int, bool)) and not isinstance(d[1], str):
+            return int(d[1])
+        if d[0] == 'discr':
+            a = d[1]
+            while a[0] in ('at',):
+                a = a[2]
+            if a[0] == 'agg' and isinstance(a[2], str):
+                for suffix, tab in self._STD_VARIANTS.items():
+                    if a[1].endswith(suffix):
+                        return tab.get(a[2])
+                adt = self.facts.adts.get(a[1])
+                if adt is not None and adt.get('kind') == 'enum':
+                    names = [v['name'] for v in adt['variants']]
+                    if a[2] in names and all(not v.get('discr') for v in adt['variants']):
+                        return names.index(a[2])
+        return None
 
     def _is_param_local(self, root):
         return root[0] == 'L' and 1 <= root[1] <= self.body.arg_count
